@@ -26,6 +26,8 @@ def run(ctx):
     monitor.enable(*monitors(ctx))
     from .. import w_suite
     w_suite.maybe(ctx)      # thorough tier: the repository's own tests under this property's monitors
+    from .. import w_misc
+    w_misc.drive_session(ctx, ctx.tier)   # long-lived signature objects through many operations
     ctx.floor('C04.forwards_calls', 1000)
     ctx.floor('C04.declared_wrappers', 500)
     ctx.floor('C04.executed', 300)
